@@ -41,6 +41,8 @@ FILLERS = {
     ".5": ".5", "1#": "1#", "\"s\"": '"s"', "\"\"": '""', "\"s": '"s', "(1)": "(1)", "((1))": "((1))", "(": "(", ")": ")", "1 +": "1 +", "+ 1": "+ 1",
     "N% + 1": "N% + 1", "N% = 1": "N% = 1", "\"a\" + \"b\"": '"a" + "b"', "S$ + 1": "S$ + 1", "-N%": "-N%", "NOT N%": "NOT N%", "1, 2": "1, 2",
     "1; 2": "1; 2", "1 / 0": "1 / 0", "N% MOD 0": "N% MOD 0", "1 AND S$": "1 AND S$", "S$ < \"b\"": 'S$ < "b"', "1 < S$": "1 < S$", "#1": "#1",
+    "7 MOD .4": "7 MOD .4", "7 MOD 0": "7 MOD 0", ".4": ".4", "1 / .0000001": "1 / .0000001", "2 ^ 2": "2 ^ 2", "1 \\ 2": "1 \\ 2", "N% AND": "N% AND",
+    "Arr(1 TO 2)": "Arr(1 TO 2)", "1 TO": "1 TO", "(1 TO 2)": "(1 TO 2)", "N% * 99999": "N% * 99999", "32767 + N%": "32767 + N%",
     "8": "8", "80": "80", "25": "25", "F$": "F$", "A": "A", "Z": "Z", "X": "X", "Qq": "Qq", "Pq%": "Pq%", "\"T.TXT\"": '"T.TXT"', "\"##\"": '"##"',
     "": "", " ": " ", ":": ":", "'": "'", ",": ",", ";": ";", "=": "=", "1 TO 2": "1 TO 2", "-": "-", "- -1": "- -1", "(N%": "(N%", "N%)": "N%)",
 }
@@ -49,7 +51,12 @@ TEMPLATES = {
     "assign": ["{1} = {2}"], "let": ["LET {1} = {2}"], "print": ["PRINT {1}"], "print2": ["PRINT {1}; {2}"], "print-using": ["PRINT USING {1}; {2}"],
     "print-file": ['OPEN "T.TXT" FOR OUTPUT AS #1', "PRINT #1, {1}"], "lprint": ["LPRINT {1}"], "bare": ["{1}"], "call1": ["{1} {2}"],
     "call-kw": ["CALL {1}({2})"], "dim": ["DIM {1}"], "dim-arr": ["DIM {1}({2})"], "dim-as": ["DIM {1} AS {2}"], "dim-shared": ["DIM SHARED {1}"],
-    "redim": ["REDIM {1}({2})"], "const": ["CONST {1} = {2}"], "if-line": ["IF {1} THEN {2}"], "if-block": ["IF {1} THEN", "END IF"],
+    "redim": ["REDIM {1}({2})"], "redim-bare": ["REDIM {1}"], "redim-as": ["REDIM {1} AS {2}"], "redim-shared": ["REDIM SHARED {1}({2})"],
+    "dim-shared-arr": ["DIM SHARED {1}({2})"], "dim-arr-as": ["DIM {1}(2) AS {2}"], "dim-two": ["DIM {1}, {2}"], "dim-to": ["DIM Qz({1} TO {2})"],
+    "const-two": ["CONST {1} = 1, {2} = 2"], "static-decl": ["STATIC {1}"], "shared-decl": ["SHARED {1}"], "erase": ["ERASE {1}"],
+    "print-semi": ["PRINT {1};"], "print-comma": ["PRINT {1},"], "print-tab": ["PRINT TAB({1}); {2}"], "print-spc": ["PRINT SPC({1}); 1"],
+    "while-wend-var": ["WHILE {1}", "WEND {2}"], "if-else-line": ["IF {1} THEN PRINT 1 ELSE {2}"], "on-goto": ["ON {1} GOTO {2}"],
+    "mid-stmt": ["MID$({1}, 1) = {2}"], "swap": ["SWAP {1}, {2}"], "let-only": ["LET {1}"], "end-kw": ["END {1}"], "data-read2": ["DATA {1}", "READ S$"], "const": ["CONST {1} = {2}"], "if-line": ["IF {1} THEN {2}"], "if-block": ["IF {1} THEN", "END IF"],
     "elseif": ["IF 0 THEN", "ELSEIF {1} THEN", "END IF"], "while": ["WHILE {1}", "N% = 0: S$ = \"\"", "WEND"], "do-while": ["DO WHILE {1}", "EXIT DO", "LOOP"],
     "loop-until": ["DO", "LOOP UNTIL {1}"], "for-var": ["FOR {1} = 1 TO 2", "NEXT"], "for-bounds": ["FOR I% = {1} TO {2}", "NEXT"],
     "for-step": ["FOR I% = 1 TO 2 STEP {1}", "NEXT"], "next-var": ["FOR I% = 1 TO 2", "NEXT {1}"], "select": ["SELECT CASE {1}", "CASE {2}", "END SELECT"],
@@ -82,6 +89,9 @@ NATURAL = {
     "poke": ("Varptr(N%)", "1"), "locate": ("1", "1"), "color": ("1", "0"), "width": ("80", "25"), "view-print": ("1", "25"), "defint": ("A", "Z"),
     "member-assign": ("Rec", "X"), "elem-assign": ("Arr", "1"), "elem-member-assign": ("RecArr", "1"), "elem-print": ("Arr", "1"),
     "elem-member-print": ("RecArr", "1"), "two-subscripts": ("Arr", "1"), "swap-assign": ("N%", "1"), "nested": ("1", "1"),
+    "redim-as": ("Qq", "Integer"), "redim-shared": ("Qq", "1"), "dim-shared-arr": ("Qq", "1"), "dim-arr-as": ("Qq", "Integer"), "dim-two": ("Qq", "Pq%"),
+    "dim-to": ("1", "8"), "const-two": ("Qq", "Pq%"), "print-tab": ("1", "1"), "while-wend-var": ("0", ""), "if-else-line": ("1", "Cls"),
+    "on-goto": ("1", "MyLabel"), "mid-stmt": ("S$", '"s"'), "swap": ("N%", "N%"),
     "sub-decl": ("Qq", "Pq%"), "function-decl": ("Qq", "Pq%"), "declare": ("Qq", "Pq%"), "type-decl": ("Qq", "X"),
 }
 
